@@ -37,7 +37,12 @@ patch("c02-either-or-never-enforced", ["C02"], "saml2_tophat/entity.py",
 patch("c02-unrequired-invalid-assertion-sig-ignored", ["C02"], "saml2_tophat/response.py",
       "            if not verified and self.do_not_verify is False:\n                try:",
       "            if not verified and self.do_not_verify is False and self.require_signature:\n                try:")
+patch("c02-default-want-response-signed-off", ["C02"], "saml2_tophat/client_base.py",
+      "            \"want_response_signed\": True,", "            \"want_response_signed\": False,",
+      "the documented default of an option nobody configured")
 # ---------------------------------------------------------------- C03
+patch("c03-default-only-md-keys-off", ["C03"], "saml2_tophat/config.py",
+      "        self.only_use_keys_in_metadata = True", "        self.only_use_keys_in_metadata = False")
 patch("c03-embedded-cert-trusted-despite-only-md-keys", ["C03"], "saml2_tophat/sigver.py",
       "        if not certs and not self.only_use_keys_in_metadata:", "        if not certs:")
 patch("c03-any-key-use-counts-as-signing", ["C03"], "saml2_tophat/mdstore.py",
